@@ -281,6 +281,121 @@ def gen_route_lex(repo):
     return ''.join(out)
 
 
+def gen_static_guards(repo):
+    """Which filesystem calls of static.py are inside a try block that turns OSError/IOError/ValueError into a
+    non-breaking Forbidden; the comparison of the 304 test; the guards of find_file in order."""
+    rel = 'clastic/static.py'
+    tree = parse(repo, rel)
+    bfr = find_def(tree.body, 'build_file_response')
+    sa = find_class(tree, 'StaticApplication')
+    gfr = find_def(sa.body, 'get_file_response')
+    ff = find_def(tree.body, 'find_file')
+
+    def call_name(c):
+        f = c.func
+        if isinstance(f, ast.Name):
+            return f.id
+        if isinstance(f, ast.Attribute):
+            return f.attr
+        return None
+
+    def handler_ok(h):
+        # except (ValueError, IOError, OSError): [file_obj.close()] raise Forbidden(is_breaking=False)
+        names = set()
+        t = h.type
+        if isinstance(t, ast.Tuple):
+            names = set(e.id for e in t.elts if isinstance(e, ast.Name))
+        elif isinstance(t, ast.Name):
+            names = {t.id}
+        if not ({'OSError', 'EnvironmentError', 'Exception'} & names or {'IOError', 'ValueError'} <= names and 'OSError' in names):
+            return False
+        if not ('OSError' in names or 'Exception' in names or 'EnvironmentError' in names):
+            return False
+        last = h.body[-1]
+        if not (isinstance(last, ast.Raise) and isinstance(last.exc, ast.Call) and call_name(last.exc) == 'Forbidden'):
+            return False
+        kws = dict((k.arg, k.value) for k in last.exc.keywords)
+        return isinstance(kws.get('is_breaking'), ast.Constant) and kws['is_breaking'].value is False
+
+    def covers_value_error(h):
+        t = h.type
+        names = set(e.id for e in t.elts if isinstance(e, ast.Name)) if isinstance(t, ast.Tuple) else ({t.id} if isinstance(t, ast.Name) else set())
+        return 'ValueError' in names or 'Exception' in names
+
+    found = []   # (call name, guarded, guarded-for-ValueError) in source order
+
+    def walk(stmts, guarded, gv):
+        for st in stmts:
+            if isinstance(st, ast.Try):
+                ok = any(handler_ok(h) for h in st.handlers)
+                okv = any(handler_ok(h) and covers_value_error(h) for h in st.handlers)
+                walk(st.body, guarded or ok, gv or okv)
+                for h in st.handlers:
+                    walk(h.body, guarded, gv)
+                walk(st.orelse, guarded, gv)
+                walk(st.finalbody, guarded, gv)
+                continue
+            for field in ('body', 'orelse'):
+                sub = getattr(st, field, None)
+                if isinstance(sub, list) and sub and isinstance(sub[0], ast.stmt):
+                    # the statement's own expressions first (test), then nested blocks
+                    pass
+            exprs = [st] if not hasattr(st, 'body') else [getattr(st, 'test', None), getattr(st, 'iter', None)]
+            for e in exprs:
+                if e is None:
+                    continue
+                for n in ast.walk(e):
+                    if isinstance(n, ast.Call) and call_name(n) in ('open', 'get_file_mtime', 'getsize', 'peek_file', 'find_file'):
+                        found.append((call_name(n), guarded, gv, n.lineno, n.col_offset))
+            if hasattr(st, 'body') and not isinstance(st, ast.Try):
+                walk(st.body, guarded, gv)
+                walk(getattr(st, 'orelse', []) or [], guarded, gv)
+    walk(bfr.body, False, False)
+    n_bfr = len(found)
+    walk(gfr.body, False, False)
+    found_sorted = sorted(found[:n_bfr], key=lambda x: (x[3], x[4])) + found[n_bfr:]
+    names = [f[0] for f in found_sorted]
+    if names != ['get_file_mtime', 'open', 'get_file_mtime', 'getsize', 'peek_file', 'find_file']:
+        raise TranslatorError('filesystem calls of build_file_response/get_file_response are %r' % (names,))
+    gb = lambda b: 'true' if b else 'false'
+    g = found_sorted
+    out = [HEADER % rel, 'From Coq Require Import List String.\nImport ListNotations.\n',
+           'From ClasticV Require Import Model.Static.\nLocal Open Scope string_scope.\n\n',
+           'Definition GUARDS : guards := mk_guards %s %s %s %s %s %s.\n'
+           % (gb(g[0][1]), gb(g[1][1]), gb(g[2][1]), gb(g[3][1]), gb(g[4][1]), gb(g[5][1] and g[5][2]))]
+    # the 304 comparison
+    ops = [type(n.ops[0]).__name__ for n in ast.walk(bfr) if isinstance(n, ast.Compare) and len(n.ops) == 1
+           and isinstance(n.left, ast.Name) and n.left.id == 'mtime']
+    if len(ops) != 1:
+        raise TranslatorError('the If-Modified-Since comparison was not found')
+    out.append('Definition COND_OP : string := %s.\n' % coq_str(ops[0]))
+    # guards of find_file, in order
+    guards = []
+    for n in ast.walk(ff):
+        if isinstance(n, ast.Call) and isinstance(n.func, ast.Attribute) and n.func.attr == 'startswith' and n.args:
+            a = n.args[0]
+            subj = n.func.value.id if isinstance(n.func.value, ast.Name) else '?'
+            if isinstance(a, ast.Constant):
+                guards.append((n.lineno, '%s.startswith:%s' % (subj, a.value)))
+            elif isinstance(a, ast.Attribute):
+                guards.append((n.lineno, '%s.startswith:%s' % (subj, a.attr)))
+    for n in ast.walk(ff):
+        if isinstance(n, ast.Call) and call_name(n) == 'normpath':
+            guards.append((n.lineno, 'normpath'))
+        if isinstance(n, ast.Call) and call_name(n) in ('pjoin', 'join') and not isinstance(n.func, ast.Attribute):
+            guards.append((n.lineno, 'join'))
+    out.append('Definition FIND_FILE_STEPS : list string := %s.\n' % names_list([gname for _, gname in sorted(guards)]))
+    # every NotFound/Forbidden raised by the two functions is non-breaking
+    nb = []
+    for fn in (bfr, gfr):
+        for n in ast.walk(fn):
+            if isinstance(n, ast.Raise) and isinstance(n.exc, ast.Call) and call_name(n.exc) in ('NotFound', 'Forbidden'):
+                kws = dict((k.arg, k.value) for k in n.exc.keywords)
+                nb.append(isinstance(kws.get('is_breaking'), ast.Constant) and kws['is_breaking'].value is False)
+    out.append('Definition ALL_ERRORS_NONBREAKING : bool := %s.\n' % gb(all(nb) and len(nb) >= 5))
+    return ''.join(out)
+
+
 def gen_normpath(repo):
     from strfun import StrFun
     rel = 'clastic/route.py'
@@ -295,6 +410,7 @@ def gen_normpath(repo):
 
 
 GENERATORS = {
+    'StaticGuards.v': gen_static_guards,
     'RouteLex.v': gen_route_lex,
     'NormPathGen.v': gen_normpath,
     'Tables.v': gen_tables,
